@@ -135,6 +135,11 @@ def tag_fn(name):
         return lambda x: tuple(x)
     if name == "f_identity":
         return lambda x: x
+    if name.startswith("f_const:"):
+        import ast
+
+        c = ast.literal_eval(name[len("f_const:"):])
+        return lambda *a, **k: copy.deepcopy(c)
 
     def f(*args, **kw):
         return (name,) + tuple(args) + tuple(("kw", k, v) for k, v in kw.items())
